@@ -568,6 +568,30 @@ class _Canon(ast.NodeTransformer):
                 if not done_:
                     fu.append(st)
             out = fu
+        # S44 `X[i:i + 1] = P`  ->  `del X[i]; X[i:i] = P`   (the reference function deletes and splices; i is in range where the
+        # reference form would not raise)
+        q44 = []
+        for st in out:
+            if isinstance(st, ast.Assign) and len(st.targets) == 1 and isinstance(st.targets[0], ast.Subscript) \
+                    and isinstance(st.targets[0].slice, ast.Slice) and st.targets[0].slice.step is None \
+                    and st.targets[0].slice.lower is not None and st.targets[0].slice.upper is not None and U(st) not in self.stmt_set:
+                from .lin import lin as _lin44
+                tg = st.targets[0]
+                lo_, hi_ = _lin44(tg.slice.lower), _lin44(tg.slice.upper)
+                if lo_ is not None and hi_ is not None and not (hi_ - lo_).t and (hi_ - lo_).c == 1 and _pure(tg.value) and _pure(tg.slice.lower):
+                    import copy as _c44
+                    d_ = ast.Delete(targets=[ast.Subscript(value=_c44.deepcopy(tg.value), slice=_c44.deepcopy(tg.slice.lower), ctx=ast.Del())])
+                    a_ = ast.Assign(targets=[ast.Subscript(value=_c44.deepcopy(tg.value),
+                                                           slice=ast.Slice(lower=_c44.deepcopy(tg.slice.lower), upper=_c44.deepcopy(tg.slice.lower), step=None),
+                                                           ctx=ast.Store())], value=st.value)
+                    if U(d_) in self.stmt_set:
+                        _relocate(d_, st)
+                        _relocate(a_, st)
+                        self.steps.append('S44 ' + U(st)[:60])
+                        q44.extend([d_, a_])
+                        continue
+            q44.append(st)
+        out = q44
         # S38 a fresh name for a new container that is stored at once (also run as a pre-pass, before the names are normalised)
         fn_ = getattr(self, 'fn', None)
         if fn_ is not None:
@@ -742,19 +766,21 @@ class _Canon(ast.NodeTransformer):
 
     def _loop_body(self, n):
         # S22: guard-and-continue whose prefix repeats the tail of the loop body
-        if True:
+        for _pass in (1, 2):
+            if _pass == 2:
+                self._s22b(n)
             changed = True
             while changed:
                 changed = False
                 body = n.body
-                for i, st in enumerate(body):
+                for i, st in reversed(list(enumerate(body))):      # innermost (last) guard first
                     if isinstance(st, ast.If) and not st.orelse and st.body and isinstance(st.body[-1], ast.Continue) and \
                             (self.ref_continues == 0 or (U(st.test) not in self.tests and U(_negate(st.test)) in self.tests)):
                         pre = st.body[:-1]
                         k = len(pre)
                         rest = body[i + 1:]
                         if len(rest) >= k and [U(x) for x in rest[len(rest) - k:]] == [U(x) for x in pre] and \
-                                not any(isinstance(y, ast.Continue) for x in rest for y in ast.walk(x)):
+                                not any(isinstance(y, (ast.Continue, ast.Break)) for x in rest[len(rest) - k:] for y in ast.walk(x)):
                             inner = rest[:len(rest) - k]
                             tail = rest[len(rest) - k:]
                             if inner:
@@ -766,6 +792,32 @@ class _Canon(ast.NodeTransformer):
                             self.steps.append('S22 guard-and-continue folded')
                             changed = True
                             break
+        return n
+
+    def _s22b(self, n):
+        # S22b: `if T: X; continue` + REST (REST does not end with X)  ->  `if not T: REST; continue` + X
+        # (REST runs to the end of the loop body, so ending it with `continue` changes nothing; X then runs exactly when T held).
+        # Applied from the last guard backwards, when the reference tests `not T` and its loop has a `continue`.
+        if self.ref_continues > 0:
+            changed = True
+            while changed:
+                changed = False
+                body = n.body
+                for i in range(len(body) - 1, -1, -1):
+                    st = body[i]
+                    if isinstance(st, ast.If) and not st.orelse and len(st.body) >= 2 and isinstance(st.body[-1], ast.Continue) \
+                            and U(st.test) not in self.tests and U(_negate(st.test)) in self.tests and body[i + 1:] \
+                            and not any(isinstance(y, (ast.Break, ast.Continue, ast.Return)) for x in st.body[:-1] for y in ast.walk(x)):
+                        pre = st.body[:-1]
+                        rest = body[i + 1:]
+                        if [U(x) for x in rest[len(rest) - len(pre):]] == [U(x) for x in pre]:
+                            continue        # S22's case
+                        new_if = ast.If(test=_negate(st.test), body=rest + ([] if _terminates(rest) else [ast.Continue()]), orelse=[])
+                        _relocate(new_if, st)
+                        n.body = body[:i] + [new_if] + pre
+                        self.steps.append('S22b guard-and-continue inverted')
+                        changed = True
+                        break
         return n
 
     def visit_While(self, n):
@@ -1330,7 +1382,7 @@ def _stmt_index(fn):
     return out
 
 
-def _kills_cannot_reach_uses(fn, kill_nodes, use_nodes):
+def _kills_cannot_reach_uses(fn, kill_nodes, use_nodes, def_stmt=None):
     """Path-sensitive part of S9's stability test: True when no statement that changes an input of the temporary's value can be
     followed, on any path of the statement CFG, by a statement that reads the temporary.  The iterable of a `for` is evaluated
     once, on entry: edges from the loop's own body back into its header do not count as reaching that use."""
@@ -1359,9 +1411,10 @@ def _kills_cannot_reach_uses(fn, kill_nodes, use_nodes):
                     if isinstance(x, ast.stmt) and cfg.node_of(x) is not None:
                         body_nodes.add(cfg.node_of(x))
         uses.append((cfg.node_of(st), body_nodes))
+    barrier = cfg.node_of(def_stmt) if def_stmt is not None else None     # passing the definition again refreshes the value
     for k in kills:
         for un, blocked in uses:
-            seen = set()
+            seen = set() if barrier is None else {barrier}
             todo = [b for b, lab in cfg.succ[k] if not (b == un and k in blocked)]
             while todo:
                 a = todo.pop()
@@ -1561,7 +1614,7 @@ def inline_fresh_temps(rel, module, refnames):
                                                 and any(a_.split('.')[1] in rebound_attrs for a_ in adeps if a_.startswith('self.') and '.' in a_):
                                             touched = True        # a method call before the last use may rebind the attribute
                                             kill_nodes.append(x)
-                            if touched and not _kills_cannot_reach_uses(fn, kill_nodes, loads[t]):
+                            if touched and not _kills_cannot_reach_uses(fn, kill_nodes, loads[t], st):
                                 continue
                             import copy as _cc
                             uses = list(loads[t])
